@@ -48,6 +48,13 @@ def build_harness(release=False):
     if rc != 0:
         raise BuildError('harness', out[-6000:])
 
+def build_engine_app():
+    """the real UCI binary of the current tree (hooks cfg on, same target dir as the harness)"""
+    rc, out = sh('cargo build --offline --manifest-path %s -p inkayaku_engine_app' % os.path.join(REPO, 'Cargo.toml'))
+    if rc != 0:
+        raise BuildError('engine_app', out[-4000:])
+    return os.path.join(BUILD, 'target', 'debug', 'inkayaku_engine_app')
+
 def regen_tables():
     dump = os.path.join(BUILD, 'tables.dump')
     rc, out = sh([HARNESS, 'dump'])
